@@ -509,3 +509,64 @@ func VerifC07_sequences() {
 		verifC07(2, 2, 4, 0, 0)
 	}
 }
+
+type vfFlaky struct {
+	failAt, calls int
+	got           []byte
+}
+
+type vfFlakyErr struct{}
+
+func (vfFlakyErr) Error() string { return "scripted failure" }
+
+func (w *vfFlaky) Write(p []byte) (int, error) {
+	i := w.calls
+	w.calls++
+	if i == w.failAt {
+		return 0, vfFlakyErr{}
+	}
+	w.got = append(w.got, p...)
+	return len(p), nil
+}
+
+type vfUnencodable struct {
+	F func()
+	s string
+}
+
+func (x vfUnencodable) String() string { return x.s }
+
+// VerifC07_afterfailure: after a render that failed part-way (the destination refused a write, or an
+// item could not be encoded), the next successful render is valid JSON mirroring its table.
+func VerifC07_afterfailure() {
+	t := New()
+	t.AddHeaders("id", "name")
+	t.AddRowItems(1, vfString("n", 1, vfASCII))
+	t.AddRowItems(2, "b")
+	ref, err := t.Render()
+	vfAssert(err == nil, "render-ok")
+	switch vfChoice("how", 2) {
+	case 0:
+		bad := &vfFlaky{failAt: vfInt("k", 0, 40)}
+		e := t.RenderTo(bad)
+		vfAssume(bad.calls > bad.failAt)
+		vfAssert(e != nil, "failure-surfaces-as-error")
+	case 1:
+		u := New()
+		u.AddHeaders("id", "name")
+		u.AddRowItems(1, "ok")
+		u.AddRowItems(2, vfUnencodable{s: "bad"})
+		out, e := u.Render()
+		vfAssert(e != nil, "unencodable-item-is-an-error")
+		vfAssert(out == "", "no-text-on-error")
+	}
+	out2, err2 := t.Render()
+	vfAssert(vfAnd(err2 == nil, out2 == ref), "render-after-failure-mirrors-the-table")
+	if err2 == nil {
+		_, ok := vfParseArray(out2)
+		vfAssert(ok, "valid-json")
+	}
+	good := &vfFlaky{failAt: -1}
+	vfAssert(t.RenderTo(good) == nil, "render-ok")
+	vfAssert(string(good.got) == ref, "renderto-writes-what-render-returns")
+}
